@@ -7,9 +7,11 @@
      is_sub s t      s is a contiguous sublist of t           ends t s / starts t p   suffix / prefix
      home_dot h s t  h = Some h' and t = h' ++ "." ++ s        inside h t   h = Some h' and t starts with h' ++ "."
      score_class     the nine declarative match classes        beats        the preference order of the property text
-     scores h s ts   map (get_path_score h s) ts               keys_of sc lv   [100*score - level]
+     scores h s ts   map (get_path_score h s) ts
      is_max l m      m occurs in l and bounds it               shared l m   m occurs at two positions
-     umax l i m      position i holds m, every other position holds less
+     competitor sc lv m j e   position j holds the score m and the expert level e
+     lowest_shared sc lv m    the lowest level among the competitors is held by two of them
+     dedupe [] locs  the locators with later occurrences of an already seen path dropped
    Not covered here (see harness/streams/c14.py): parsing of the argument text, re-rendering of the
    value under the chosen path and its re-parse, scope.fetch. *)
 From Coq Require Import List Ascii String ZArith.
@@ -56,12 +58,23 @@ Theorem C14_order : forall home s t1 t2,
 Proof. exact order_spec. Qed.
 Print Assumptions C14_order.
 
-(* ---- a name equal to a full path of a duplicate-free target list addresses that parameter *)
-Theorem C14_full_path_wins : forall home targets levels s,
+(* ---- a name equal to a full path always addresses that parameter: for ANY master (a path may
+   occur several times among its definitions), the target list being the de-duplicated paths *)
+Theorem C14_full_path_wins : forall home master locs s,
+  all_definitions master = Ok locs -> In s (map lpath locs) ->
+  exists i, nth_error (map lpath (dedupe [] locs)) i = Some s /\
+            decide_for home (map lpath (dedupe [] locs)) (map recursive_expert_level (dedupe [] locs)) s
+              = Ok (Chosen i s false) /\
+            process_arg_paths home master [s] = ([], EOk [(i, s)]).
+Proof. exact full_path_addresses. Qed.
+Print Assumptions C14_full_path_wins.
+
+(* the same on any duplicate-free target list *)
+Theorem C14_full_path_wins_list : forall home targets levels s,
   In s targets -> NoDup targets ->
   exists i, nth_error targets i = Some s /\ decide_for home targets levels s = Ok (Chosen i s false).
 Proof. exact full_path_wins. Qed.
-Print Assumptions C14_full_path_wins.
+Print Assumptions C14_full_path_wins_list.
 
 (* ---- C14_choice_spec, in five parts *)
 (* refused as unknown iff nothing matches (in particular when the master has no parameter at all) *)
@@ -80,25 +93,44 @@ Theorem C14_choice_unique : forall home targets levels s i t,
 Proof. exact decide_for_plain. Qed.
 Print Assumptions C14_choice_unique.
 
-(* chosen with a warning iff the best score is shared and this position alone maximises 100*score - level *)
+(* chosen with a warning iff the best score is shared and this target alone has the lowest expert level
+   among the targets holding the best score ("a strictly lower expert level alone may break the tie") *)
 Theorem C14_choice_tiebreak : forall home targets levels s i t,
-  decide_for home targets levels s = Ok (Chosen i t true) <->
-  nth_error targets i = Some t /\
-  (exists m, is_max (scores home s targets) m /\ 0 < m /\ shared (scores home s targets) m) /\
-  exists k, umax (keys_of (scores home s targets) levels) i k.
+  length levels = length targets ->
+  (decide_for home targets levels s = Ok (Chosen i t true) <->
+   nth_error targets i = Some t /\
+   exists m e, is_max (scores home s targets) m /\ 0 < m /\ shared (scores home s targets) m /\
+     get_path_score home s t = m /\ nth_error levels i = Some e /\
+     forall j t' e', j <> i -> nth_error targets j = Some t' -> get_path_score home s t' = m ->
+                     nth_error levels j = Some e' -> e < e').
 Proof. exact decide_for_warn. Qed.
 Print Assumptions C14_choice_tiebreak.
 
-(* refused as ambiguous iff the best score is shared, the tie-break key is shared too; the list is
-   exactly the targets with the best score, in target order, and has more than one element *)
+(* refused as ambiguous iff the best score is shared and the lowest level among its holders is shared too;
+   the list is exactly the targets with the best score, in target order, and has more than one element *)
 Theorem C14_choice_ambiguous : forall home targets levels s c,
-  decide_for home targets levels s = Ok (Ambiguous c) <->
-  exists m, is_max (scores home s targets) m /\ 0 < m /\ shared (scores home s targets) m /\
-            (exists k, is_max (keys_of (scores home s targets) levels) k /\
-                       shared (keys_of (scores home s targets) levels) k) /\
-            c = filter (fun t => get_path_score home s t =? m) targets /\ (1 < length c)%nat.
+  length levels = length targets ->
+  (decide_for home targets levels s = Ok (Ambiguous c) <->
+   exists m, is_max (scores home s targets) m /\ 0 < m /\ shared (scores home s targets) m /\
+             lowest_shared (scores home s targets) levels m /\
+             c = filter (fun t => get_path_score home s t =? m) targets /\ (1 < length c)%nat).
 Proof. exact decide_for_ambiguous. Qed.
 Print Assumptions C14_choice_ambiguous.
+
+Theorem C14_competitor_spec : forall home s targets levels m j e,
+  competitor (scores home s targets) levels m j e <->
+  exists t, nth_error targets j = Some t /\ get_path_score home s t = m /\ nth_error levels j = Some e.
+Proof. exact competitor_scores. Qed.
+Print Assumptions C14_competitor_spec.
+
+(* whatever is chosen, silently or with a warning, is a best match: no other parameter matches better *)
+Theorem C14_chosen_is_best : forall home targets levels s i t w,
+  length levels = length targets ->
+  decide_for home targets levels s = Ok (Chosen i t w) ->
+  nth_error targets i = Some t /\ 0 < get_path_score home s t /\
+  forall t', In t' targets -> get_path_score home s t' <= get_path_score home s t.
+Proof. exact chosen_is_best. Qed.
+Print Assumptions C14_chosen_is_best.
 
 (* there is no fifth outcome, whatever the target list (empty included) *)
 Theorem C14_choice_total : forall home targets levels s,
@@ -106,20 +138,6 @@ Theorem C14_choice_total : forall home targets levels s,
   exists d, decide_for home targets levels s = Ok d.
 Proof. exact decide_for_total. Qed.
 Print Assumptions C14_choice_total.
-
-(* "a strictly lower expert level alone may break the tie, with a warning": when the expert levels
-   are less than 100 apart the warned choice is the best match with the strictly lowest level *)
-Theorem C14_tiebreak_lowest_level : forall home targets levels s i t,
-  length levels = length targets ->
-  (forall e e', In e levels -> In e' levels -> e - e' < 100) ->
-  (decide_for home targets levels s = Ok (Chosen i t true) <->
-   nth_error targets i = Some t /\
-   exists m e, is_max (scores home s targets) m /\ 0 < m /\ shared (scores home s targets) m /\
-     get_path_score home s t = m /\ nth_error levels i = Some e /\
-     forall j t' e', j <> i -> nth_error targets j = Some t' -> get_path_score home s t' = m ->
-                     nth_error levels j = Some e' -> e < e').
-Proof. exact decide_for_warn_lowest. Qed.
-Print Assumptions C14_tiebreak_lowest_level.
 
 (* ---- one argument with several definitions: every one is decided in order, the first refusal ends it *)
 Theorem C14_sources_in_order : forall home targets levels srcs warned acc w l,
@@ -129,12 +147,26 @@ Theorem C14_sources_in_order : forall home targets levels srcs warned acc w l,
 Proof. exact process_sources_ok. Qed.
 Print Assumptions C14_sources_in_order.
 
-(* ---- the target list is exactly the dotted paths of the active definitions of the master *)
+(* ---- all_definitions lists exactly the dotted paths of the active definitions of the master ... *)
 Theorem C14_targets_spec : forall h ks a locs p,
   all_definitions (Scp h ks a) = Ok locs ->
   (In p (map lpath locs) <-> exists k, In k ks /\ odis (ohdr k) = false /\ contributes k p).
 Proof. exact targets_spec. Qed.
 Print Assumptions C14_targets_spec.
+
+(* ... and the command-line targets are those paths, each once *)
+Theorem C14_target_locators_spec : forall h ks a tl,
+  target_locators (Scp h ks a) = Ok tl ->
+  NoDup (map lpath tl) /\
+  forall p, In p (map lpath tl) <-> exists k, In k ks /\ odis (ohdr k) = false /\ contributes k p.
+Proof. exact target_locators_spec. Qed.
+Print Assumptions C14_target_locators_spec.
+
+(* the locator kept for a path is its first occurrence (its expert level is the one that counts) *)
+Theorem C14_first_occurrence_kept : forall pre x post seen,
+  ~ In (lpath x) seen -> ~ In (lpath x) (map lpath pre) -> In x (dedupe seen (pre ++ x :: post)).
+Proof. exact dedupe_first. Qed.
+Print Assumptions C14_first_occurrence_kept.
 
 (* ---- process_args: per-argument actions in order (map), blanks dropped (filter) *)
 Theorem C14_args_structure : forall (A : Type) isfile (pa : str -> res A) collect args,
@@ -166,21 +198,22 @@ Theorem C14_empty_master_unknown : forall home master s r,
 Proof. exact empty_master_unknown. Qed.
 Print Assumptions C14_empty_master_unknown.
 
-(* ---- defects of the unchanged code, with concrete witnesses *)
-(* F13: the same path twice among the targets: the full path "m" is refused as ambiguous between m and m *)
-Theorem C14_refuted_duplicate_path :
+(* ---- the witnesses of the two repaired defects, as positive statements *)
+(* formerly F13: the path m occurs twice in the master; it is one target and the full path sets it *)
+Theorem C14_duplicate_path_addressed :
   (exists locs, all_definitions dup_master = Ok locs /\ map lpath locs = [s_ "m"; s_ "m"]) /\
-  process_arg_paths None dup_master [s_ "m"] = ([], EAmbiguous (s_ "m") [s_ "m"; s_ "m"]).
-Proof. exact dup_master_refuses_full_path. Qed.
-Print Assumptions C14_refuted_duplicate_path.
+  (exists tl, target_locators dup_master = Ok tl /\ map lpath tl = [s_ "m"]) /\
+  process_arg_paths None dup_master [s_ "m"] = ([], EOk [(0%nat, s_ "m")]).
+Proof. exact dup_master_full_path. Qed.
+Print Assumptions C14_duplicate_path_addressed.
 
-(* expert levels 100 or more apart: a target that is not a best match wins the tie-break *)
-Theorem C14_refuted_outsider_wins :
+(* formerly F20: expert levels 100 or more apart: the worse match z.ab does not compete; x.b / y.b tie *)
+Theorem C14_outsider_refused :
   get_path_score None (s_ "b") (s_ "x.b") = 4 /\ get_path_score None (s_ "b") (s_ "y.b") = 4 /\
   get_path_score None (s_ "b") (s_ "z.ab") = 3 /\
-  process_arg_paths None outsider_master [s_ "b"] = ([s_ "z.ab"], EOk [(2%nat, s_ "z.ab")]).
-Proof. exact outsider_wins. Qed.
-Print Assumptions C14_refuted_outsider_wins.
+  process_arg_paths None outsider_master [s_ "b"] = ([], EAmbiguous (s_ "b") [s_ "x.b"; s_ "y.b"]).
+Proof. exact outsider_refused. Qed.
+Print Assumptions C14_outsider_refused.
 
 (* ---- non-vacuity *)
 Example C14_example_scores :
